@@ -13,6 +13,7 @@ mod eng_sched;
 mod eng_snap;
 mod eng_store;
 mod eng_txm;
+mod eng_vec;
 mod fw;
 mod model_graph;
 mod prng;
